@@ -770,7 +770,14 @@ pub fn parse_with(img: &Store, g: Geo) -> Result<Parsed, String> {
                 read_slots(img, g.cluster_off(*c), g.cluster_bytes, &mut slots);
             }
         }
-        let (entries, labels, end_idx, mut findings) = decode_slots(&slots);
+        let (mut entries, labels, end_idx, mut findings) = decode_slots(&slots);
+        if g.fat_bits != 32 {
+            // bytes 20..22 are the high word of the cluster number on FAT32 only; elsewhere other systems keep their own
+            // data there (extended-attribute handle) and it is not part of the cluster number
+            for e in entries.iter_mut() {
+                e.first_cluster &= 0xFFFF;
+            }
+        }
         let dpath = p.objs[oi].path.clone();
         for f in &mut findings {
             f.detail = format!("{}: {}", path_str(&dpath), f.detail);
